@@ -349,3 +349,6 @@ def run_case(cfg):
           "state": repr(sorted(cfg.items(), key=lambda kv: kv[0])), "digest": common.digest(*digests),
           "violations": viol, "traces": len(common.PATTERNS),
           "sample": {"cfg": cfg, "shape": list(shape), "code_bounds": [lo, hi], "step": step}}
+
+# (appended: sub-lattices added after the seeded waves; kept out of the original RULE text for readability)
+RULE = RULE + '; plus: the layer-hook route (alpha=None object, used once, then _set_trainable_parameter) and the rebuilt-from-config route, each held to the clauses of the configuration the object then reports'
